@@ -330,6 +330,41 @@ def s8(ctx, rep):
     rep.put(ok, "S8", "guarded_by", "FIFOScheduler._suggest: resume suggestion exactly when a trial is promoted", f, None, "")
 
 
+def s2b(ctx, rep):
+    """guard table of the promotion decision (found thin by the generic mutation audit)"""
+    from .common import require_guard, call_nodes
+    P = ctx.P
+    f = P.method("PromotionRungSystem", "_find_promotable_trial")
+    cfg = cfg_of(f)
+    cut = var_from_call(f, "quantile")
+    if cut is None:
+        raise AnchorError("_find_promotable_trial: cutoff = rung.quantile() not found")
+    rets = [n for n in cfg.nodes if n.kind == "stmt" and isinstance(n.ast, ast.Return)]
+    rv = [U(n.ast.value) for n in rets if isinstance(n.ast.value, ast.Name)]
+    early = [n.id for n in rets if isinstance(n.ast.value, ast.Constant) and n.ast.value.value is None]
+    require_guard(ctx, rep, "S2", f, "PromotionRungSystem._find_promotable_trial: 'nothing to promote' without a scan | no cutoff (fewer than two entries)", early,
+                  [(f"{cut} is None", lambda a: a[0] == "is" and a[1] == cut and a[3] is True)],
+                  "a rung with a cutoff is never scanned (nothing is ever promoted), or a rung without one is compared with None")
+    if len(set(rv)) == 1:
+        rej = [n.id for n in cfg.nodes if n.kind == "stmt" and isinstance(n.ast, ast.Assign) and U(n.ast.targets[0]) == rv[0]
+               and isinstance(n.ast.value, ast.Constant) and n.ast.value.value is None and not isinstance(n.ast.targets[0], ast.Tuple)
+               and any(p_.kind == "test" for p_ in cfg.nodes) and n.ast.lineno > max([l.ast.lineno for l in cfg.nodes if l.kind == "for"] or [0])]
+        require_guard(ctx, rep, "S2", f, "PromotionRungSystem._find_promotable_trial: the best unpromoted entry is rejected | it is on the wrong side of the cutoff", rej,
+                      [("sign * (metric - cutoff) < 0", lambda a: a[0] == "lt" and a[2] == "0" and cut in a[1]),
+                       ("a candidate was found", lambda a: a[0] == "is" and a[1] == rv[0] and a[3] is False)],
+                      "the best paused trial is rejected when it should be promoted (or promoted although it is worse than the quantile)")
+    g = P.method("PromotionRungSystem", "on_task_schedule")
+    nodes = [n for n, c in call_nodes(ctx, g, lambda c: fn_name(c) == "_mark_as_promoted")]
+    require_guard(ctx, rep, "S1", g, "PromotionRungSystem.on_task_schedule: a trial is marked as promoted | one was found", nodes,
+                  [("trial_id is not None", lambda a: a[0] == "is" and a[3] is False and a[2] == "None")],
+                  "marking without a candidate (or a candidate is returned without being marked: it can be promoted twice)")
+    cg = cfg_of(g)
+    brk = [n.id for n in cg.nodes if n.kind == "stmt" and isinstance(n.ast, ast.Break)]
+    require_guard(ctx, rep, "S4", g, "PromotionRungSystem.on_task_schedule: the scan over rungs ends | a promotable trial was found", brk,
+                  [("result is not None", lambda a: a[0] == "is" and a[3] is False and a[2] == "None")],
+                  "the scan stops at the first rung although nothing can be promoted there (lower rungs are never looked at)")
+
+
 def s9(ctx, rep):
     """reports of a resumed trial at or below the level it was resumed from are flagged ignore_data (and only those): the
     cost-aware variant drops the cost offset on such reports (shared with C14-S3)"""
@@ -345,6 +380,7 @@ def s9(ctx, rep):
 def run(ctx, rep, tier="quick"):
     s1(ctx, rep)
     s2(ctx, rep)
+    s2b(ctx, rep)
     s3(ctx, rep)
     s4(ctx, rep)
     s5(ctx, rep)
